@@ -252,6 +252,35 @@ func TestVerifC06(t *testing.T) {
 				upperOld = *upper
 				*upper &^= vmPresent
 			}
+			// optionally give one upper-level entry an arbitrary subset of the flag bits (it keeps
+			// pointing at its table) and, half of the time, make the level below it non-present:
+			// the handler must judge the leaf only, and only when the whole walk succeeds
+			var upper2, below2 *uint64
+			var upper2Old, below2Old uint64
+			if mode == 8 || mode == 7 {
+				lvl := r.Intn(3)
+				table := m.cr3
+				ix := vmIndices(p.va)
+				for l := 0; l < lvl; l++ {
+					table = uintptr(*vmEntryAt(table, ix[l]) & vmPhysMask)
+				}
+				upper2 = vmEntryAt(table, ix[lvl])
+				upper2Old = *upper2
+				fl := r.U64() & c04AllFlags &^ vmHuge
+				if r.Chance(3, 4) {
+					fl |= vmPresent
+				}
+				if r.Chance(1, 2) {
+					fl = fl&^uint64(FlagRW) | uint64(FlagCopyOnWrite) // read-only + CoW bit on a table entry
+				}
+				*upper2 = (upper2Old & vmPhysMask) | fl
+				if r.Bool() {
+					below2 = vmEntryAt(uintptr(upper2Old&vmPhysMask), ix[lvl+1])
+					below2Old = *below2
+					*below2 &^= vmPresent
+				}
+				run.Count("faults_with_rewritten_upper_level_flags", 1)
+			}
 			entryBefore := *leaf
 			frameBefore := mm.Frame((entryBefore & vmPhysMask) >> 12)
 			_, lvl, _ := m.translate(m.cr3, p.va)
@@ -300,6 +329,16 @@ func TestVerifC06(t *testing.T) {
 			failTempMap = false
 			if upper != nil {
 				*upper = upperOld
+			}
+			if below2 != nil {
+				*below2 = below2Old
+			}
+			if upper2 != nil {
+				if !recoverable && *upper2 != (upper2Old&vmPhysMask)|(*upper2&^vmPhysMask) {
+					c.Violation("upper-level-entry-retargeted", map[string]interface{}{"fault": desc, "what": fmt.Sprintf("an upper-level table entry was changed by the fault handler: %#x", *upper2)})
+					return
+				}
+				*upper2 = upper2Old
 			}
 			if sigs, msgs := m.takeProblems(); len(sigs) > 0 {
 				c.Violation(sigs[0], map[string]interface{}{"fault": desc, "what": msgs[0]})
